@@ -36,6 +36,11 @@ fn main() {
                 let d = serde_json::json!({"seed": seed, "family": "fuzz", "e": if sc.e_server {"server"} else {"client"}, "class": sc.class, "input_len": sc.input.len(), "input_head_hex": hex, "cfg": sc.cfg.to_json()});
                 (run_fuzz(&sc), d)
             }
+            "flood" => {
+                let sc = vh::engine::flood::gen_flood(seed);
+                let d = sc.to_json();
+                (vh::engine::flood::run_flood(&sc), d)
+            }
             other => panic!("unknown family {}", other),
         };
         let nt = out.stats.get("catalogue.applied") > 0 || out.stats.get("nontrivial") > 0;
